@@ -18,9 +18,9 @@ ASSUMPTIONS = ["group weights are given in sorted-key order of the groups that h
                "the square form of pcDelta_grouped_cross is only demanded for bins=0 (vector-valued entries have no 2-D form; the code raises there)",
                "cell text contains no '.' or '_' (C02's quantifier); float comparison rel 1e-9, NaN == NaN"]
 EXHAUSTIVE = {"quick": ["fixed witness table x every function x every option"], "thorough": ["fixed witness tables x every function x every option"]}
-REQUIRE = {"pc_conditional_cases": 13, "pc_conditional_weighted": 6, "pc_conditional_multi_on": 6, "pc_conditional_two_by": 3,
-           "singleton_group_tables": 20, "pc_grouped_cross_cases": 7, "pcDelta_grouped_cases": 15, "pcDelta_grouped_bins0": 2,
-           "pcDelta_grouped_cross_condensed": 13, "pcDelta_grouped_cross_square_bins0": 3, "renyi_cases": 10, "renyi_conditional": 5,
+REQUIRE = {"pc_conditional_cases": 13, "pc_conditional_weighted": 6, "pc_conditional_multi_on": 6, "pc_conditional_two_by": 2,
+           "singleton_group_tables": 20, "pc_grouped_cross_cases": 5, "pcDelta_grouped_cases": 14, "pcDelta_grouped_bins0": 1,
+           "pcDelta_grouped_cross_condensed": 12, "pcDelta_grouped_cross_square_bins0": 2, "renyi_cases": 10, "renyi_conditional": 5,
            "stdrenyi_cases": 4, "numeric_key_tables": 10, "cells_compared": 500}
 SHARDS = {"quick": 4, "thorough": 16}
 
@@ -364,7 +364,7 @@ def _all_for(rows, rng, must):
             yield "pcDelta_grouped_cross", {"rows": rows, "cols": COLS, "by": by, "seq": "seq", "bins": bins, "condensed": True}, must
         yield "pcDelta_grouped", {"rows": rows, "cols": COLS, "by": by, "seq": "seq", "bins": [0, 1, 2, 3], "normalize": False}, must
         yield "pcDelta_grouped_cross", {"rows": rows, "cols": COLS, "by": by, "seq": "seq", "bins": 0, "condensed": False}, must
-    for base in (2.0, math.e, 10.0):
+    for base in (2.0, math.e, 10.0, None):
         yield "renyi", {"rows": rows, "cols": COLS, "features": "seq", "base": base}, must
         yield "renyi", {"rows": rows, "cols": COLS, "features": ["seq", "f"], "base": base}, must
         yield "renyi", {"rows": rows, "cols": COLS, "features": "seq", "by": "g1", "base": base}, must
